@@ -270,3 +270,72 @@ class Lockstep:
 
     def paths(self, ctx, **kw):
         return [self.path(p) for p in ctx.walk(self.body, start_bb=self.header, **kw).paths]
+
+
+def _has_version(e):
+    if not isinstance(e, tuple):
+        return False
+    if e and e[0] == "mut":
+        return True
+    return any(_has_version(x) for x in e if isinstance(x, tuple))
+
+
+def _range_of(it, depth=0):
+    """(first position, end position) of the positions an iterator expression runs over, as expressions, or None:
+    a..b -> (a, b); x.iter().enumerate().skip(n) / x.iter().skip(n) -> (n, len(x))."""
+    if not isinstance(it, tuple) or depth > 8:
+        return None
+    if it[0] == "ref":
+        return _range_of(it[1], depth + 1)
+    if it[0] == "agg" and it[1].endswith("ops::Range") and len(it[4]) == 2:
+        return it[4][0], it[4][1]
+    if it[0] == "call":
+        n = _short_name(it[1])
+        a = it[2]
+        if n in ("enumerate", "copied", "cloned", "iter", "into_iter", "by_ref") and len(a) == 1:
+            return _range_of(a[0], depth + 1)
+        if n == "skip" and len(a) == 2:
+            r = _range_of(a[0], depth + 1)
+            if r is not None and r[0] == const("int", 0):
+                return a[1], r[1]
+        return None
+    if it[0] in ("field", "arg", "index"):
+        from .sym import mk_len
+        return const("int", 0), mk_len(it)
+    return None
+
+
+def first_turn(p):
+    """A path walked from the function's entry meets each loop in its *first* turn, with the iterator still the
+    expression it was created from.  What `next` yields there is element 0: `next(a..b) as Some.0` is a,
+    `next(x.iter().enumerate().skip(n)) as Some.0` is (n, x[n]); the exhaustion test is rendered as
+    `next(<a..b>)` with the positions the iterator runs over.  (Rules that take the first turn as representative of
+    all - the scan loops of ReMatcher::matches - thereby read a range of indices and an enumerate/skip chain alike.)"""
+    import copy
+    zero = const("int", 0)
+
+    def rw(e):
+        if not isinstance(e, tuple):
+            return e
+        if e and isinstance(e[0], str):
+            if e[0] == "field" and isinstance(e[1], tuple) and e[1][0] == "downcast" and e[1][2] == "Some" and e[2] == "0":
+                c = e[1][1]
+                if isinstance(c, tuple) and c[0] == "call" and _short_name(c[1]) == "next" and len(c[2]) == 1 and not _has_version(c[2][0]):
+                    el = _elem(c[2][0], zero)
+                    if el is not None and _range_of(c[2][0]) is not None:
+                        return rw(el)
+            if e[0] == "call" and _short_name(e[1]) == "next" and len(e[2]) == 1 and not _has_version(e[2][0]):
+                r = _range_of(e[2][0])
+                if r is not None:
+                    return ("call", "next", (("named", "<%s..%s>" % (show(r[0]), show(r[1]))),))
+            e = tuple(rw(x) if isinstance(x, tuple) else x for x in e)
+            if e[0] == "field" and isinstance(e[1], tuple) and e[1][0] == "tuple" and str(e[2]).isdigit() and int(e[2]) < len(e[1][1]):
+                return e[1][1][int(e[2])]
+            return e
+        return tuple(rw(x) if isinstance(x, tuple) else x for x in e)
+
+    q = copy.copy(p)
+    q.guards = [(rw(a), o) for a, o in p.guards]
+    q.effects = [(ef[0], ef[1], tuple(rw(x) for x in ef[2])) + tuple(ef[3:]) if ef[0] == "call" else tuple(rw(x) if isinstance(x, tuple) else x for x in ef) for ef in p.effects]
+    q.ret = rw(p.ret) if p.ret is not None else None
+    return q
